@@ -40,6 +40,9 @@ def models(prop, tier):
            what='TagPool + tag map + send queue + timeouts + adversarial peer frames, max_tag scaled to 5'),
       dict(module='MuxTransport', cfg='MuxTransport_orig.cfg', expect_violation='NoViolation',
            what='counterexample generator: _ReleaseTag as it was (releases tags the peer names, known or not)'),
+      dict(module='MuxTransport', cfg='MuxTransport_orig2.cfg', expect_violation='NoViolation',
+           what='counterexample generator: _ProcessTaggedReply as it was (a duplicate / stray frame completes a request that is '
+                'still in the send queue and frees its tag)'),
     ]
   return [
     dict(module='SerialTransport', cfg='SerialTransport_q.cfg' if q else 'SerialTransport_t.cfg', coverage=True,
@@ -363,6 +366,19 @@ def run_case(script):
     stack.Push(terminal, r)
     ev.append({'e': 'Req', 'r': r, 't': ms()})
     gevent.spawn(top.AsyncProcessRequest, stack, msg, None, {})
+    if kind == 'mux':
+      untagged.append((r, msg))
+
+  untagged = []
+
+  def watch_tags(_k=None):
+    # the multiplexed transport publishes the tag it gives a request on the message's properties
+    for item in list(untagged):
+      tag = item[1].properties.get('__Tag')
+      if isinstance(tag, int) and tag > 0:
+        untagged.remove(item)
+        ev.append({'e': 'Tagged', 'r': item[0], 'tag': tag, 't': ms()})
+  loop.on_quantum = watch_tags
 
   def quiet():
     loop.settle()
